@@ -119,6 +119,9 @@ type Behaviour struct {
 	Cfg   Cfg    `json:"cfg"`
 	Hist  []Step `json:"hist"`
 	FKind string `json:"fkind"` // "scripted" (default) or "command": the real imap.filter.command over a shell script
+	// harness-only dimensions of the storage configuration (the statement does not depend on them)
+	Limit bool   `json:"limit"` // appendlimit far below the message size ("does not affect messages added when using module as a delivery target")
+	Comp  string `json:"comp"`  // compression: "", "lz4", "zstd"
 }
 
 // ---- scripted environment (registered as maddy modules) ------------------------
@@ -293,6 +296,12 @@ func newEnv(t testing.TB, b Behaviour, root string) *env {
 	}
 	if c.Norm == "precis_casefold_email" && b.ID%2 == 0 {
 		nodes = nodes[:1] // the documented default
+	}
+	if b.Limit {
+		nodes = append(nodes, node("appendlimit", []string{"100b"}))
+	}
+	if b.Comp != "" {
+		nodes = append(nodes, node("compression", []string{b.Comp}))
 	}
 	if c.JunkName != "Junk" {
 		nodes = append(nodes, node("junk_mailbox", []string{c.JunkName}))
@@ -735,7 +744,7 @@ func runBehaviour(t *testing.T, b Behaviour, w io.Writer) {
 		msgs = append(msgs, map[string]interface{}{"list": m.List, "quar": m.Quar})
 	}
 	tr.Emit("Cfg", vtrace.Ev{"norm": b.Cfg.Norm, "dmap": b.Cfg.DMap, "nf": b.Cfg.NF, "jbox": b.Cfg.JBox,
-		"junkName": b.Cfg.JunkName, "watch": b.Cfg.Watch, "msgs": msgs, "fkind": e.fkind})
+		"junkName": b.Cfg.JunkName, "watch": b.Cfg.Watch, "msgs": msgs, "fkind": e.fkind, "limit": b.Limit, "comp": b.Comp})
 	var wt *watcher
 	if b.Cfg.Watch {
 		wt = e.watch(t)
